@@ -160,7 +160,7 @@ theorem infidelityDerivative0_get {nA nT nH nO : Nat} (d : Nat) (omega S : Vec â
   simp only [infidelityDerivative0, Fin.getElem_fin, Vector.getElem_map]
   rw [show âˆ€ (v : Ten3 â„ nT nH nO), (infidTail d omega v)[t.1][h.1] = (infidTail d omega v)[t][h]
     from fun _ => rfl, infidTail_get]
-  simp only [Gen.gradient_infidelity_derivative_0_e0, Fin.getElem_fin, Vector.getElem_ofFn]
+  simp only [Gen.gradient_infidelity_derivative_1_e0, Fin.getElem_fin, Vector.getElem_ofFn]
 
 theorem infidelityDerivative1_get {nA nT nH nO : Nat} (d : Nat) (omega : Vec â„ nO)
     (S : Mat â„ nA nO) (dF : Vector (Ten3 â„ nT nH nO) nA) (a : Fin nA) (t : Fin nT) (h : Fin nH) :
@@ -170,7 +170,7 @@ theorem infidelityDerivative1_get {nA nT nH nO : Nat} (d : Nat) (omega : Vec â„
   simp only [infidelityDerivative1, Fin.getElem_fin, Vector.getElem_map]
   rw [show âˆ€ (v : Ten3 â„ nT nH nO), (infidTail d omega v)[t.1][h.1] = (infidTail d omega v)[t][h]
     from fun _ => rfl, infidTail_get]
-  simp only [Gen.gradient_infidelity_derivative_0_e1, Fin.getElem_fin, Vector.getElem_ofFn]
+  simp only [Gen.gradient_infidelity_derivative_1_e1, Fin.getElem_fin, Vector.getElem_ofFn]
 
 theorem selectRows_get {Î± : Type} {n k : Nat} (idx : Vector (Fin n) k) (v : Vector Î± n)
     (i : Fin k) : (selectRows idx v)[i] = v[idx[i]] := by
